@@ -262,8 +262,18 @@ def helperPrefix : Helper → List Param
 def stubHelperFields (dflt : Bool) (c : ClassInfo) : List Param :=
   (stubArgs dflt c).map (fun p => ⟨p.name, if p.hasDefault then p.hasDefault else true⟩)
 
+/-- the fixed parameters of the two classmethods that a field keyword may not repeat -/
+def reservedHelper : List String := ["source_object", "ignore_props"]
+
+/-- since the repair of "uncompilable-stub:parameter-name-clash": a field called like one of the fixed parameters of
+    `from_other_class` / `from_trusted_data` is left out of those two stubs (at run time the name binds to the fixed
+    parameter, it cannot be passed as an override) -/
+def helperKeep : Helper → List Param → List Param
+  | .shallowClone, ps => ps
+  | _, ps => ps.filter (fun p => !reservedHelper.contains p.name)
+
 def stubHelper (dflt apd : Bool) (h : Helper) (c : ClassInfo) : Sig :=
-  ⟨helperPrefix h ++ stubHelperFields dflt c, stubKw apd c⟩
+  ⟨helperPrefix h ++ helperKeep h (stubHelperFields dflt c), stubKw apd c⟩
 
 /-- a valid Python parameter list: no parameter without default after one with default -/
 def mandatoryFirst : List Param → Bool
